@@ -398,7 +398,7 @@ func (it *Interp) asciiCase(fr *frame, s Str, lower bool, name string) Value {
 			// need proof that b < 0x80 under the path condition
 			c := tt.ULt(b, tt.Const(8, 0x80))
 			if c.Op != OpConst {
-				if r, _ := it.sol.Check(tt.Not(c), false); r != Unsat {
+				if r, _ := it.check(tt.Not(c), false); r != Unsat {
 					return it.callBody(fr, name, []Value{s})
 				}
 			}
@@ -498,4 +498,182 @@ func (it *Interp) countByte(s []*Term, c *Term) Value {
 		r = tt.Add(r, tt.Ite(tt.Eq(b, c), tt.Const(64, 1), tt.Const(64, 0)))
 	}
 	return r
+}
+
+// invokeMethod calls method name on interface value recv with the interpreter.
+func (it *Interp) invokeMethod(fr *frame, recv Value, name string, args ...Value) Value {
+	iv, ok := recv.(Iface)
+	if !ok || iv.t == nil {
+		panic(it.runtimePanic("nil", "method call on nil interface"))
+	}
+	var pkg *types.Package
+	if !token_IsExported(name) {
+		if n, ok := iv.t.(*types.Named); ok {
+			pkg = n.Obj().Pkg()
+		}
+	}
+	f := it.prog.LookupMethod(iv.t, pkg, name)
+	if f == nil {
+		panic(engineErr("no method %s on %v", name, iv.t))
+	}
+	return it.call(fr, nil, f, append([]Value{iv.v}, args...))
+}
+
+func token_IsExported(name string) bool { return name != "" && name[0] >= 'A' && name[0] <= 'Z' }
+
+// binaryLayout flattens a fixed-size value of unsigned/signed integers (struct, array, scalar) into bytes.
+func (it *Interp) binaryEncode(t types.Type, v Value, big bool, out *[]Value) {
+	switch u := t.Underlying().(type) {
+	case *types.Basic:
+		w, ok := basicWidth(u.Kind())
+		if !ok {
+			panic(engineErr("binary: unsupported basic type %v", t))
+		}
+		x := v.(*Term)
+		if w == 0 {
+			*out = append(*out, it.tt.Ite(x, it.tt.Const(8, 1), it.tt.Const(8, 0)))
+			return
+		}
+		n := int(w / 8)
+		for i := 0; i < n; i++ {
+			sh := i
+			if big {
+				sh = n - 1 - i
+			}
+			b := it.tt.Trunc(it.tt.LShr(x, it.tt.Const(w, uint64(8*sh))), 8)
+			if w == 8 {
+				b = x
+			}
+			*out = append(*out, b)
+		}
+	case *types.Struct:
+		s := v.(Struct)
+		for i := 0; i < u.NumFields(); i++ {
+			it.binaryEncode(u.Field(i).Type(), s[i], big, out)
+		}
+	case *types.Array:
+		a := v.(Array)
+		for i := range a {
+			it.binaryEncode(u.Elem(), a[i], big, out)
+		}
+	default:
+		panic(engineErr("binary: unsupported type %v", t))
+	}
+}
+
+func (it *Interp) binarySize(t types.Type) int {
+	switch u := t.Underlying().(type) {
+	case *types.Basic:
+		w, ok := basicWidth(u.Kind())
+		if !ok {
+			panic(engineErr("binary: unsupported basic type %v", t))
+		}
+		if w == 0 {
+			return 1
+		}
+		return int(w / 8)
+	case *types.Struct:
+		n := 0
+		for i := 0; i < u.NumFields(); i++ {
+			n += it.binarySize(u.Field(i).Type())
+		}
+		return n
+	case *types.Array:
+		return int(u.Len()) * it.binarySize(u.Elem())
+	}
+	panic(engineErr("binary: unsupported type %v", t))
+}
+
+func (it *Interp) binaryDecode(t types.Type, data []Value, pos *int, big bool) Value {
+	switch u := t.Underlying().(type) {
+	case *types.Basic:
+		w, _ := basicWidth(u.Kind())
+		if w == 0 {
+			b := data[*pos].(*Term)
+			*pos++
+			return it.tt.Not(it.tt.Eq(b, it.tt.Const(8, 0)))
+		}
+		n := int(w / 8)
+		r := it.tt.Const(w, 0)
+		for i := 0; i < n; i++ {
+			b := data[*pos+i].(*Term)
+			sh := i
+			if big {
+				sh = n - 1 - i
+			}
+			if w == 8 {
+				r = b
+			} else {
+				r = it.tt.BOr(r, it.tt.Shl(it.tt.ZExt(b, w), it.tt.Const(w, uint64(8*sh))))
+			}
+		}
+		*pos += n
+		return r
+	case *types.Struct:
+		s := make(Struct, u.NumFields())
+		for i := range s {
+			s[i] = it.binaryDecode(u.Field(i).Type(), data, pos, big)
+		}
+		return s
+	case *types.Array:
+		a := make(Array, u.Len())
+		for i := range a {
+			a[i] = it.binaryDecode(u.Elem(), data, pos, big)
+		}
+		return a
+	}
+	panic(engineErr("binary: unsupported type %v", t))
+}
+
+func isBigEndian(order Value) bool {
+	iv, ok := order.(Iface)
+	if !ok || iv.t == nil {
+		panic(engineErr("binary: nil byte order"))
+	}
+	return strings.Contains(iv.t.String(), "bigEndian")
+}
+
+func init() {
+	reg("encoding/binary.Write", func(fr *frame, args []Value) Value {
+		it := fr.it
+		data := args[2].(Iface)
+		t, v := data.t, data.v
+		if p, ok := t.Underlying().(*types.Pointer); ok {
+			t = p.Elem()
+			v = it.loadPtr(v)
+		}
+		var out []Value
+		if sl, ok := t.Underlying().(*types.Slice); ok {
+			for _, e := range v.([]Value) {
+				it.binaryEncode(sl.Elem(), e, isBigEndian(args[1]), &out)
+			}
+		} else {
+			it.binaryEncode(t, v, isBigEndian(args[1]), &out)
+		}
+		if out == nil {
+			out = []Value{}
+		}
+		res := it.invokeMethod(fr, args[0], "Write", out).(Tuple)
+		return res[1]
+	})
+	reg("encoding/binary.Read", func(fr *frame, args []Value) Value {
+		it := fr.it
+		data := args[2].(Iface)
+		p, ok := data.t.Underlying().(*types.Pointer)
+		if !ok {
+			panic(engineErr("binary.Read into %v", data.t))
+		}
+		n := it.binarySize(p.Elem())
+		buf := make([]Value, n)
+		for i := range buf {
+			buf[i] = it.tt.bytes[0]
+		}
+		res := it.call(fr, nil, it.funcByName("io.ReadFull"), []Value{args[0], buf}).(Tuple)
+		if errv := res[1].(Iface); errv.t != nil {
+			return errv
+		}
+		pos := 0
+		it.storePtr(data.v, it.binaryDecode(p.Elem(), buf, &pos, isBigEndian(args[1])))
+		return Iface{}
+	})
 }
